@@ -286,8 +286,10 @@ class Facts:
                         out.append({"to": fw["id"], "name": fw["path"], "kind": "fwd", "line": t.get("ln"), "bb": bi})
                 c = t.get("callee")
                 if c is None:
+                    # a call through a fn pointer: the pointer's type gives the parameter list of the possible targets
                     out.append({"to": None, "name": "<indirect %s>" % t.get("indirect"), "kind": "dyn",
-                                "line": t.get("ln"), "bb": bi, "sig": None})
+                                "line": t.get("ln"), "bb": bi,
+                                "sig": _fn_params(str(t.get("indirect"))) if "fn(" in str(t.get("indirect")) else None})
                     continue
                 cn = c.get("rpathargs") or c.get("pathargs") or ""
                 if "dyn " in cn and re.search(r"as std::ops::Fn(Mut|Once)?<", cn):
